@@ -61,6 +61,11 @@ Step ==
           /\ Check(g3, "LoadedEqual:" \o e.variant, Strip(st), got)
           /\ ok' = (ok /\ g1 /\ g2 /\ g3)
           /\ st' = got
+        ELSE IF e.op = "save" THEN         \* the project was written (bytes produced, clone made): a pure observation
+          LET g1 == e.outcome = "ok"   g2 == got = st IN
+          /\ Check(g1, "save-outcome", "ok", e.outcome)
+          /\ Check(g2, "saving-changed-the-tables", st, got)
+          /\ ok' = (ok /\ g1 /\ g2) /\ st' = got
         ELSE IF e.op = "inject" THEN       \* the harness put the object into a model state
           LET g == Consistent(got) IN
           /\ Check(g, "inject-consistent", "consistent", got)
